@@ -51,7 +51,7 @@ func switchKinds(info *types.Info, fd *ast.FuncDecl) map[string]*ast.CaseClause 
 func CheckC11(c *Ctx) {
 	run := c.Run
 	run.Technique = "typed-AST agreement lints between sibling encoder/decoder functions: handled reflect kinds, bit-size table, float/time format arguments, constant-folded os.OpenFile flag sets, header-map indexing, JSON delimiters"
-	run.Explanation = "Round-trip equality for all values depends on strconv, encoding/csv, encoding/json and time and is NOT decided. Decided are the structural agreements (and, for every struct with codec tags, that no two fields share a json or header name: encoding/json drops both such fields silently) without which some value cannot round-trip: getReflectValue and setReflectValue handle the same reflect kinds; every sized numeric kind has a bit size in kindToBits, and the formatter and the parser use the same entry; floats are written with FormatFloat(v, fmt, -1, bits) (shortest representation that parses back exactly); time values are formatted and parsed with the same layout value; WriteToFile opens with O_CREATE|O_WRONLY|O_TRUNC (a shorter rewrite must not keep the old tail) and AppendToFile with O_APPEND|O_WRONLY; AppendOrWriteToCsvFile appends only to an existing non-empty file; the reader indexes each record through the header map; ChanToJSON emits and JSONToChan expects '[' ',' ']'. Column order: header i and cell i of every written row are taken from the same column descriptor at the loop's own position. Also: integers and booleans are written and parsed with the same strconv family, base 10 and the field's own 64-bit value (SSA terms of the calls); the parsed value is stored exactly on the paths where the parse succeeded; every layout constant of the codec (default format, format tags) carries each field it mentions completely (07:14 vs 19:14, 1923 vs 2023 evaluated with time.Format). A string cell is stored as read: every reflect SetString behind setReflectValue receives the cell parameter itself (SSA)."
+	run.Explanation = "Round-trip equality for all values depends on strconv, encoding/csv, encoding/json and time and is NOT decided. Decided are the structural agreements (and, for every struct with codec tags, that no two fields share a json or header name: encoding/json drops both such fields silently) without which some value cannot round-trip: getReflectValue and setReflectValue handle the same reflect kinds; every sized numeric kind has a bit size in kindToBits, and the formatter and the parser use the same entry; floats are written with FormatFloat(v, fmt, -1, bits) (shortest representation that parses back exactly); time values are formatted and parsed with the same layout value; WriteToFile opens with O_CREATE|O_WRONLY|O_TRUNC (a shorter rewrite must not keep the old tail) and AppendToFile with O_APPEND|O_WRONLY; AppendOrWriteToCsvFile appends only to an existing non-empty file; the reader indexes each record through the header map; ChanToJSON emits and JSONToChan expects '[' ',' ']'. Column order: header i and cell i of every written row are taken from the same column descriptor at the loop's own position. Also: integers and booleans are written and parsed with the same strconv family, base 10 and the field's own 64-bit value (SSA terms of the calls); the parsed value is stored exactly on the paths where the parse succeeded; every layout constant of the codec (default format, format tags) carries each field it mentions completely (07:14 vs 19:14, 1923 vs 2023 evaluated with time.Format). A string cell is stored as read: every reflect SetString behind setReflectValue receives the cell parameter itself (SSA). Open flags are evaluated through one unexported open helper with the call site's constants; AppendToFile, which writes no header row, must not carry O_CREATE."
 	run.Trusted = []string{"go/types constant folding", "strconv/encoding/time semantics of the named functions"}
 	hp := c.P.Pkg("helper")
 	if hp == nil {
@@ -360,6 +360,27 @@ func CheckC11(c *Ctx) {
 		"writing a file must replace whatever it contained: without O_TRUNC a shorter rewrite keeps the old tail")
 	c.openFlags(info, "AppendToFile", []string{"O_APPEND", "O_WRONLY"}, []string{"O_TRUNC"},
 		"appending must keep the existing rows")
+	// an append that writes no header row must not create the file: a file it created would start
+	// with a data row, which a reader with a header row takes for the header (the row is lost)
+	if af := c.fn("helper", "Csv", "AppendToFile"); af != nil {
+		headerless := false
+		ast.Inspect(af.Decl.Body, func(n ast.Node) bool {
+			call, ok := n.(*ast.CallExpr)
+			if !ok || len(call.Args) != 3 {
+				return true
+			}
+			if f := callee(info, call); f != nil && f.Name() == "writeToWriter" {
+				if tv, ok := info.Types[call.Args[1]]; ok && tv.Value != nil && tv.Value.ExactString() == "false" {
+					headerless = true
+				}
+			}
+			return true
+		})
+		if headerless {
+			c.openFlags(info, "AppendToFile", nil, []string{"O_CREATE"},
+				"AppendToFile writes no header row, so a file it creates itself starts with a data row: read back with a header row, the first appended row is lost")
+		}
+	}
 	// AppendOrWriteToCsvFile: append only when the file exists and is non-empty
 	if aw := c.fn("helper", "", "AppendOrWriteToCsvFile"); aw != nil {
 		var appendUnderSize, writeLast bool
@@ -594,13 +615,95 @@ func (c *Ctx) openFlags(info *types.Info, method string, need, forbid []string, 
 		}
 	}
 	found := false
-	ast.Inspect(fi.Decl.Body, func(n ast.Node) bool {
+	// the flags of an os.OpenFile call: a constant expression, or - inside an unexported helper
+	// of the package that the method calls - constants or-ed with parameters whose values are the
+	// constants of the method's call site.
+	var env map[types.Object]int64
+	var flagsOf func(e ast.Expr) (int64, bool)
+	flagsOf = func(e ast.Expr) (int64, bool) {
+		if v, ok := constInt(info, e); ok {
+			return v, true
+		}
+		switch x := ast.Unparen(e).(type) {
+		case *ast.Ident:
+			v, ok := env[info.ObjectOf(x)]
+			return v, ok
+		case *ast.BinaryExpr:
+			if x.Op == token.OR {
+				a, oka := flagsOf(x.X)
+				b, okb := flagsOf(x.Y)
+				return a | b, oka && okb
+			}
+		}
+		return 0, false
+	}
+	body := fi.Decl.Body
+	direct := false
+	ast.Inspect(body, func(n ast.Node) bool {
+		if call, ok := n.(*ast.CallExpr); ok && calleeName(info, call) == "os.OpenFile" {
+			direct = true
+		}
+		return !direct
+	})
+	if !direct {
+		ast.Inspect(fi.Decl.Body, func(n ast.Node) bool {
+			call, ok := n.(*ast.CallExpr)
+			if !ok || env != nil {
+				return env == nil
+			}
+			f := callee(info, call)
+			if f == nil || ast.IsExported(f.Name()) {
+				return true
+			}
+			h := c.P.Info(f)
+			if h == nil || h.Pkg != fi.Pkg || h.Decl.Body == nil {
+				return true
+			}
+			opens := false
+			ast.Inspect(h.Decl.Body, func(m ast.Node) bool {
+				if hc, ok := m.(*ast.CallExpr); ok && calleeName(info, hc) == "os.OpenFile" {
+					opens = true
+				}
+				return !opens
+			})
+			if !opens {
+				return true
+			}
+			e := map[types.Object]int64{}
+			i := 0
+			for _, fld := range h.Decl.Type.Params.List {
+				for _, nm := range fld.Names {
+					if i < len(call.Args) {
+						if v, ok := constInt(info, call.Args[i]); ok {
+							e[info.ObjectOf(nm)] = v
+						}
+					}
+					i++
+				}
+			}
+			// a parameter the helper assigns is not the call site's constant any more
+			ast.Inspect(h.Decl.Body, func(m ast.Node) bool {
+				if as, ok := m.(*ast.AssignStmt); ok {
+					for _, l := range as.Lhs {
+						if id, ok := l.(*ast.Ident); ok {
+							delete(e, info.ObjectOf(id))
+						}
+					}
+				}
+				return true
+			})
+			env = e
+			body = h.Decl.Body
+			return false
+		})
+	}
+	ast.Inspect(body, func(n ast.Node) bool {
 		call, ok := n.(*ast.CallExpr)
 		if !ok || calleeName(info, call) != "os.OpenFile" || len(call.Args) != 3 {
 			return true
 		}
 		found = true
-		flags, ok := constInt(info, call.Args[1])
+		flags, ok := flagsOf(call.Args[1])
 		if !ok {
 			c.violate("codec-agreement/open-flags", "helper.(*Csv)."+method, "non-constant flags", call.Pos(), "os.OpenFile flags are not a constant expression (undecided, fails closed)")
 			return false
